@@ -81,6 +81,45 @@ def roundtrip(c):
     return out
 
 
+def same_design(c):
+    """the design found through the API against the design found by running the file the API wrote through the command-line entry"""
+    import ghedesigner.manager as M
+    cfg = e2e.materialise(c)
+    tmp = Path(tempfile.mkdtemp(prefix="verif_c17d_"))
+    out = {}
+    try:
+        g = e2e.make_manager(cfg)
+        p1 = tmp / "in1.json"
+        g.write_input_file(p1)
+        try:
+            g.find_design()
+            api = e2e.summarise(g)
+            api = {"nbh": api["nbh"], "H": api["H"], "max": api.get("max_eft"), "min": api.get("min_eft"), "rho": api.get("fluid_rho")}
+        except ValueError as ex:
+            api = {"exc": "ValueError"}
+        import io, contextlib
+        err = io.StringIO()
+        with contextlib.redirect_stderr(err), contextlib.redirect_stdout(err):
+            rc = M._run_manager_from_cli(str(p1), str(tmp / "out"), False, None)
+        cli = {"rc": rc}
+        sp = tmp / "out" / "SimulationSummary.json"
+        if sp.exists():
+            dd = json.loads(sp.read_text())
+            d = dd["ghe_system"]
+            cli.update({"nbh": d["number_of_boreholes"], "H": d["active_borehole_length"]["value"], "max": dd["simulation_results"]["max_hp_eft"]["value"],
+                        "min": dd["simulation_results"]["min_hp_eft"]["value"], "rho": d["fluid_density"]["value"]})
+        out = {"ok": True, "api": api, "cli": cli}
+    except Exception as ex:
+        import traceback
+        out = {"ok": False, "exc": type(ex).__name__, "msg": traceback.format_exc()[-500:]}
+    finally:
+        shutil.rmtree(tmp, ignore_errors=True)
+    return out
+
+
 if __name__ == "__main__":
     p = read_payload()
-    emit([roundtrip(c) for c in p["cases"]])
+    if p.get("mode") == "same_design":
+        emit([same_design(c) for c in p["cases"]])
+    else:
+        emit([roundtrip(c) for c in p["cases"]])
